@@ -114,6 +114,29 @@ CHECKS.update({
         "DESIGN.md §2 C18",
     ),
 })
+CHECKS.update({
+    "C05": (
+        "exploration",
+        "Hypothesis-drawn worker counts and completion-order tapes on a harness-owned multiprocessing shim; differential against the sequential path (bit-identical)",
+        "Exploration over schedules: yaw's multiprocessing is replaced by a shim whose Pool delivers results in a Hypothesis-chosen completion order (only orders a real w-worker pool can produce), for every parallel entry point; results must be bit-identical to the sequential path on byte-identical cache copies. A real-pool subset (uncontrolled schedule) cross-checks the shim.",
+        "shim fidelity (in-order dispatch, chunksize 1); bounded sizes (<=6 patches => <=36 tasks)",
+        "DESIGN.md §2 C05",
+    ),
+    "C07": (
+        "exploration",
+        "Hypothesis-drawn operation histories (model-based: build/measure/hist/reopen with neighbouring configurations) vs the same call on freshly created caches",
+        "Exploration over histories: operation sequences are generated as data (shrinkable as one value) and interpreted against the real cache directories; after every measuring step the result is compared with the same call on fresh caches (the model: a measurement is a pure function of records and configuration).",
+        "histories of <=14 operations over 4 catalogs and a pool of 7 neighbouring configurations",
+        "DESIGN.md §2 C07",
+    ),
+    "C13": (
+        "exploration",
+        "Hypothesis-drawn base case + transformation (rotation, row/centre permutation, weight scaling, split); metamorphic relations on raw counts and downstream estimates",
+        "Metamorphic search: both the base and the transformed case run through the public pipeline; raw counts must transform as dictated (exactly for unweighted data) and amplitudes/samples/covariance/redshift estimate must agree up to rounding. Ambiguous cases (pair near a scale edge, object near-equidistant from two centres) are discarded before the second run.",
+        "tolerance model for downstream values (jackknife subtraction); degenerate leave-one-out denominators not judged",
+        "DESIGN.md §2 C13",
+    ),
+})
 NOT_YET = {}
 
 props = [json.loads(l) for l in (VERIF / "properties.jsonl").read_text().splitlines() if l.strip()]
